@@ -1614,6 +1614,7 @@ func IsFileModified(filepath string) (bool, error) {
 		"-c", "core.quotepath=false", // handle special chars in filenames
 		"status",
 		"--porcelain",
+		"-z", // NUL-terminated entries: names are never quoted
 		"--", // separator in case filename ambiguous
 		filepath,
 	}
@@ -1629,13 +1630,13 @@ func IsFileModified(filepath string) (bool, error) {
 		return false, lfserrors.Wrap(err, tr.Tr.Get("Failed to start `git status`"))
 	}
 	matched := false
-	for scanner := bufio.NewScanner(outp); scanner.Scan(); {
-		line := scanner.Text()
+	status, _ := io.ReadAll(outp)
+	for _, entry := range strings.Split(string(status), "\x00") {
 		// Porcelain format is "<I><W> <filename>"
 		// Where <I> = index status, <W> = working copy status
-		if len(line) > 3 {
+		if len(entry) > 3 {
 			// Double-check even though should be only match
-			if strings.TrimSpace(line[3:]) == filepath {
+			if entry[3:] == filepath {
 				matched = true
 				// keep consuming output to exit cleanly
 				// will typically fall straight through anyway due to 1 line output
